@@ -17,7 +17,7 @@ RULE = ("model-*: Hypothesis draws (X, y) with continuous noise, n 6..60, d 1..3
         "formulas written from the statement. Non-trivial: tree with >=2 leaves (model); start>0 or end<n or non-identity order "
         "(criteria). Distinct = distinct case JSON.")
 ASSUMPTIONS = ["criteria are driven only through the _test_criterion_* accessors the compiled module exports, with indices inside [start, end]",
-               "linear criterion: unit weights; ranges whose design [X,1] has condition number > 1e6 are skipped (least-squares fit not unique)",
+               "linear criterion: unit weights; exactly rank-deficient designs are compared (the residual of the projection is unique), only designs with a singular value strictly between the rounding cut-off and 1e-6 x the largest are skipped",
                "X is a float64 C-contiguous array (the compiled criterion takes a typed memoryview)"]
 TOLERANCES = {"criteria": "1e-9 * (1 + max y^2)", "model mselin": "1e-6 * (1 + max|y|)", "model simple": "1e-9 * (1 + max|y|)"}
 
@@ -51,7 +51,13 @@ def _ref_node(kind, X, y, w, idx):
     if m <= d + 1:
         return mean, 0.0
     A = np.hstack([X[idx], np.ones((m, 1))])
-    if np.linalg.cond(A) > 1e6:
+    sv = np.linalg.svd(A, compute_uv=False)
+    cut = max(A.shape) * np.finfo(np.float64).eps * sv[0]
+    # compared when the design is well conditioned OR exactly rank deficient (every singular value either clearly above or
+    # at rounding level: the residual of the projection is then unique and stable); skipped only for genuinely
+    # ill-conditioned designs in between
+    inbetween = sv[(sv > cut) & (sv < 1e-6 * sv[0])]
+    if len(inbetween):
         return mean, None
     beta, *_ = np.linalg.lstsq(A, yy, rcond=None)
     res = yy - A @ beta
@@ -142,7 +148,20 @@ def _crit_cases(draw, tier="quick"):
         w = [1.0] * n
         # distinct x values keep most ranges well conditioned
         xs = draw(st.lists(st.integers(-40, 40), min_size=n, max_size=n, unique=draw(st.booleans())))
-        X = [[v / 4.0] + ([draw(_yv)] if d == 2 else []) for v in xs]
+        second = draw(st.sampled_from(["free", "free", "collinear", "indicator", "constant"]))
+        X = []
+        for i, v in enumerate(xs):
+            row = [v / 4.0]
+            if d == 2:
+                if second == "free":
+                    row.append(draw(_yv))
+                elif second == "collinear":
+                    row.append(v / 2.0 + 1.0)            # exactly collinear with the first feature and the intercept
+                elif second == "indicator":
+                    row.append(0.0 if i < n // 2 else 1.0)  # constant inside many ranges
+                else:
+                    row.append(1.5)
+            X.append(row)
     else:
         w = draw(st.one_of(st.just([1.0] * n), st.lists(st.integers(1, 32).map(lambda v: v / 8.0), min_size=n, max_size=n)))
         X = [[0.0] for _ in range(n)]
